@@ -384,6 +384,10 @@ func (r *c18Run) exec(op c18Op) {
 		for i := 0; i < rg.Intn(4); i++ {
 			chans = append(chans, fmt.Sprintf("channel-%d", rg.Intn(20)))
 		}
+		if len(chans) > 0 && rg.Intn(3) == 0 {
+			// the whitelist is a list, not a set: a repeated entry is valid and must survive export and import as stored
+			chans = append(chans, chans[0])
+		}
 		p := onboardingtypes.NewParams(rg.Intn(2) == 0, sdkmath.NewIntFromBigInt(new(big.Int).Exp(big.NewInt(10), big.NewInt(int64(rg.Intn(25))), nil)), chans)
 		if rg.Intn(6) == 0 {
 			p.AutoSwapThreshold = sdkmath.ZeroInt()
